@@ -42,6 +42,27 @@ class Boom(Exception):
     """Injected failure; the token identifies the injection site."""
 
 
+class BoomType(Boom, TypeError):
+    """... one that is also a TypeError (code that special-cases TypeError must not mistake it for its own)"""
+
+
+class BoomKey(Boom, KeyError):
+    pass
+
+
+class BoomValue(Boom, ValueError):
+    pass
+
+
+_BOOMS = (Boom, BoomType, BoomKey, BoomValue)
+
+
+def boom(tok):
+    """The injected failure for token `tok`; its class varies with the token (all are reported as 'Boom')."""
+    import zlib
+    return _BOOMS[zlib.crc32(tok.encode()) % len(_BOOMS)](tok)
+
+
 class _GetItemSeq:
     """Unpackable with *, but neither a tuple/list nor registered as collections.abc.Iterable."""
     def __init__(self, items):
@@ -65,7 +86,7 @@ class _KeysGetItem:
 
 def cbk(kind):
     """callback kind as recorded in traces / known to the model: 'sfut' (a plain callback returning a future) is a 'sync' one"""
-    return "sync" if kind == "sfut" else kind
+    return "sync" if kind in ("sfut", "sobj") else kind
 
 
 def _parse_id(name):
@@ -76,7 +97,11 @@ def _parse_id(name):
 
 
 def _exc_name(e):
-    return type(e).__name__
+    return "Boom" if isinstance(e, Boom) else type(e).__name__
+
+
+def _exc_tok(e):
+    return str(e.args[0]) if isinstance(e, Boom) and e.args else str(e)
 
 
 def _exc_isa(e):
@@ -444,7 +469,7 @@ class PoolRun:
             me.ev("call", r=r, j=j, got=repr((a, kw)), raised=raised)
             me.point("call:%d:%d" % (r, j))
             if raised:
-                raise Boom("call-%d-%d" % (r, j))
+                raise boom("call-%d-%d" % (r, j))
             return me.body(r, j, tpl)
 
         func.__name__ = "w"                         # shared on purpose: generated group names must count up
@@ -508,7 +533,7 @@ class PoolRun:
                         raise
                     if react == "swallow":
                         return None
-                    raise Boom("w-%d" % tid) from None
+                    raise boom("w-%d" % tid) from None
                 w["gate"] = None
                 self.ev("resume", id=tid, out=out)
                 if out == "again":
@@ -516,12 +541,12 @@ class PoolRun:
                 if out == "retexc":         # a task whose RESULT is an exception object (returned, not raised)
                     self.ev("fin", id=tid, how="ret")
                     self.point("fin:%d" % tid)
-                    return Boom("value-%d" % tid)
+                    return boom("value-%d" % tid)
                 self.ev("fin", id=tid, how=out)
                 self.point("fin:%d" % tid)
                 if out == "ret":
                     return "res-%d" % tid
-                raise Boom("w-%d" % tid)
+                raise boom("w-%d" % tid)
         finally:
             w["done"] = True
             w["gate"] = None
@@ -530,14 +555,14 @@ class PoolRun:
         me = self
         if kind == "none":
             return None
-        if kind in ("sync", "sraise", "sfut"):
+        if kind in ("sync", "sraise", "sfut", "sobj"):
             def cb(tid):
                 tn = asyncio.current_task().get_name()
                 me.ev(which + "_in", id=tid, r=r, tn=tn)
                 me.point("%s:%d" % (which, tid))
                 if kind == "sraise":
                     me.ev(which + "_out", id=tid, how="exc")
-                    raise Boom("%s-%d" % (which, tid))
+                    raise boom("%s-%d" % (which, tid))
                 me.ev(which + "_out", id=tid, how="ret")
                 if kind == "sfut":
                     # a plain callback may return anything - e.g. a future of some background work of the user's: the pool
@@ -545,6 +570,17 @@ class PoolRun:
                     fut = me.loop.create_future()
                     me.w.keep.append(fut)
                     return fut
+            if kind == "sobj":
+                # any callable is a legal callback: here an object that is not hashable (it defines __eq__)
+                class CallbackObject:
+                    __hash__ = None
+
+                    def __eq__(self, other):
+                        return self is other
+
+                    def __call__(self, tid):
+                        return cb(tid)
+                return CallbackObject()
             return cb
 
         async def acb(tid):
@@ -562,7 +598,7 @@ class PoolRun:
                 me.cbgates.pop((which, tid), None)
             if kind == "araise":
                 me.ev(which + "_out", id=tid, how="exc")
-                raise Boom("%s-%d" % (which, tid))
+                raise boom("%s-%d" % (which, tid))
             me.ev(which + "_out", id=tid, how="ret")
         return acb
 
@@ -765,7 +801,7 @@ class PoolRun:
             res = "cancelled" if h in self.hcancelled else "CancelledError"
             self.ev("hdone", h=h, kind=kind, res=res, tok="", G=True)
         except BaseException as e:
-            self.ev("hdone", h=h, kind=kind, res=_exc_name(e), tok=str(e), G=True)
+            self.ev("hdone", h=h, kind=kind, res=_exc_name(e), tok=_exc_tok(e), G=True)
 
     # -- macros ----------------------------------------------------------------------------------
     def release_one(self):
